@@ -178,6 +178,29 @@ MUTS = {
     "TU-funcmap-key-renamed-config-unloadable": ("pkg/kube/inject/template.go", [('''		"otelResourceAttributes": otelResourceAttributes,''', '''		"otelResourceAttributesX": otelResourceAttributes,''')]),
     "T8-revert-F10j-cronjob-decision": (INJ, [('''		if podMetadata != nil {''', '''		if false && podMetadata != nil {''')]),
     "T9-status-annotation-omits-volumes": (WH, [('''		stat.Volumes = append(stat.Volumes, c.Name)''', '''		_ = c''')]),
+    "N2-webhook-skips-ambient-dataplane-label": (WH, [('''	if !injectRequired(IgnoredNamespaces.UnsortedList(), wh.Config, &pod.Spec, pod.ObjectMeta) {''', '''	if pod.Labels["istio.io/dataplane-mode"] == "ambient" || !injectRequired(IgnoredNamespaces.UnsortedList(), wh.Config, &pod.Spec, pod.ObjectMeta) {''')]),
+    "N4-kubeinject-status-annotation-bypasses-decision": (INJ, [('''		if !injectRequired(IgnoredNamespaces.UnsortedList(), &Config{Policy: InjectionPolicyEnabled}, &pod.Spec, decisionMeta) {''', '''		if _, again := pod.Annotations[annotation.SidecarStatus.Name]; !again && !injectRequired(IgnoredNamespaces.UnsortedList(), &Config{Policy: InjectionPolicyEnabled}, &pod.Spec, decisionMeta) {''')]),
+    "N5-webhook-annotation-false-wins-over-label": (INJ, [('''		objectSelector = lbl
+	}''', '''		objectSelector = lbl
+		if annos[annotation.SidecarInject.Name] == "false" {
+			objectSelector = "false"
+		}
+	}''')]),
+    "H1b-reinsert-drops-ports-of-istio-proxy": (WH, [('''		pod.Spec.Containers = append(pod.Spec.Containers, c)
+	}
+
+	for _, c := range existingOverrides.InitContainers {''', '''		if c.Name == ProxyContainerName {
+			c.Ports = nil
+		}
+		pod.Spec.Containers = append(pod.Spec.Containers, c)
+	}
+
+	for _, c := range existingOverrides.InitContainers {''')]),
+    "H2-cluster-envs-appended-unsorted": (INJ, [('''	sort.Strings(keys)
+	for _, key := range keys {
+		val := newKVs[key]''', '''	sort.Sort(sort.Reverse(sort.StringSlice(keys)))
+	for _, key := range keys {
+		val := newKVs[key]''')]),
     "P7-status-annotation-not-stripped": (INJ, [('''	delete(pod.Annotations, annotation.SidecarStatus.Name)
 
 	return pod''', '''	return pod''')]),
